@@ -319,12 +319,29 @@ class Harness:
                 s.yield_(Pending("client_linger", alts=lambda: ["go"] if self.ctl_ticks >= target else []))
                 continue
             method = req[0].rstrip("!")
+            t_first = self.ctl_ticks
             while True:
                 s.point("client_next", f"{method} {req[1]}")
                 status, body = self.asgi_request(app, method, req[1])
                 s.log("http", f"{method} {req[1]}", (status, body))
                 if not req[0].endswith("!") or status == 200:
                     break
+                if self.ctl_ticks > t_first + 60:
+                    # refused (queue full) across 60 completed control ticks, each of which drains the whole queue
+                    s.log("starved", "", {"refused": f"{method} {req[1]}"})
+                    s.aborted = f"starved: {method} {req[1]} still refused after 60 further control ticks"
+                    break
+        # every tick of the control loop drains the whole queue: 40 completed ticks after the last request whatever
+        # was accepted has long been carried out - if not, the run is cut here (it would only burn the budget) and
+        # the monitors are told
+        t0 = self.ctl_ticks
+        s.yield_(Pending("client_watch", alts=lambda: ["go"] if self.ctl_ticks >= t0 + 40 else []))
+        acc = [e[2] for e in s.events if e[1] == "cmd_accept"]
+        exe = [e[2] for e in s.events if e[1] == "cmd_exec"]
+        upto = acc.index("SHUTDOWN") + 1 if "SHUTDOWN" in acc else len(acc)
+        if len(exe) < upto:
+            s.log("starved", "", {"accepted": acc[:upto], "executed": exe})
+            s.aborted = f"starved: accepted {acc[:upto]}, executed {exe} after 40 further control ticks"
         # stay alive (daemon thread) until the run is cut
         s.yield_(Pending("client_done", alts=lambda: []))
 
@@ -637,10 +654,19 @@ class Harness:
             saved_state_path = None
             if sc.prelaunch:
                 self.in_prelaunch = True
-                launch(comps["interaction"], {}, {"buf": SequentialBuffer(8)}, comps["trainers"],
-                       LaunchConfig(states_dir=self.tmp / "states", web_api_address=("localhost", 8391),
-                                    web_api_command_queue_size=1,
-                                    max_attempts_to_pause_all_threads=sc.max_attempts))
+                try:
+                    launch(comps["interaction"], {}, {"buf": SequentialBuffer(8)}, comps["trainers"],
+                           LaunchConfig(states_dir=self.tmp / "states", web_api_address=("localhost", 8391),
+                                        web_api_command_queue_size=1,
+                                        max_attempts_to_pause_all_threads=sc.max_attempts))
+                except SchedAbort as e:
+                    # the preparatory launch itself could not be brought to an end (its shutdown command is
+                    # never carried out): the scenario proper is not run
+                    s.log("launch_aborted", "", f"aborted:prelaunch {e}")
+                    return RunResult(events=s.events, outcome=f"aborted:prelaunch {e}", schedule=list(s.taken),
+                                     states_dir_listing=[], saves=self.saves, post={}, decisions=s.decisions,
+                                     sched_abort=f"prelaunch: {e}", times=s.times,
+                                     pending_at_abort=dict(getattr(s, "pending_at_abort", {}) or {}))
                 self.in_prelaunch = False
                 s.now += float(sc.downtime)
                 saved_state_path = sorted((self.tmp / "states").glob("*.state"))[-1]
